@@ -52,9 +52,9 @@ TIMEOUT = 600.0
 CHILD_TIMEOUT = 240.0
 
 SEEDS_FIXED = ["0", "1", "2", "3"]
-QUICK_MIX = [("script", 9), ("optimize", 5), ("rewrite", 5), ("rewrite_ln", 2), ("rewrite_rms", 3), ("fold", 4), ("convert", 3)]
+QUICK_MIX = [("script", 9), ("optimize", 5), ("rewrite", 5), ("rewrite_ln", 2), ("rewrite_rms", 3), ("fold", 4), ("convert", 3), ("rewrite_custom", 3)]
 THOROUGH_MIX = [("script", 60), ("optimize", 35), ("rewrite", 35), ("rewrite_ln", 10), ("rewrite_rms", 10), ("fold", 25),
-                ("convert", 25)]
+                ("convert", 25), ("rewrite_custom", 15)]
 POOL = 40
 
 
